@@ -8,7 +8,7 @@ open LibInj
 
 /-- a token as stored by `tokenize`: well-formed, inside `[lo, hi)`, value = input bytes at its offset -/
 def TokAt (input : Bytes) (lo hi : Nat) (t : Token) : Prop :=
-  TokInv t ∧ lo ≤ t.pos ∧ t.pos + t.len ≤ hi ∧ t.val = (input.drop t.pos).take t.len
+  TokInv t ∧ lo ≤ t.pos ∧ t.pos + t.len ≤ hi ∧ t.val = (input.drop t.pos).take t.len ∧ CatOK t
 
 theorem tvSet_ok (s : State) (i : Nat) (t : Token) (h : i < s.tv.length) :
     tvSet s i t = .ok { s with tv := s.tv.set i t } := by
@@ -33,7 +33,7 @@ theorem tokLoop_ok (fuel : Nat) : ∀ (s : State), s.pos ≤ s.input.length → 
     · have hrest0 : (s.input.drop s.pos)[0]? = some s.input[s.pos] := by
         simp [List.getElem?_drop, List.getElem?_eq_getElem hlt]
       have hrl : 0 < (s.input.drop s.pos).length := by simp; omega
-      obtain ⟨r, hr, n1, n2, ⟨v1, v2⟩, b1, f1⟩ := runP_ok s.flags (s.input.drop s.pos) s.input[s.pos] hrest0
+      obtain ⟨r, hr, n1, n2, ⟨v1, v2⟩, b1, f1, c1⟩ := runP_ok s.flags (s.input.drop s.pos) s.input[s.pos] hrest0
       rw [List.length_drop] at n2
       have h0 : (s.input.drop s.pos)[0] = s.input[s.pos] := by simp
       simp only [hlt, ↓reduceIte, sliceFrom_ok s.input s.pos hp, at'_ok hrl, h0, hr, bind, Except.bind, pure, Except.pure,
@@ -52,7 +52,7 @@ theorem tokLoop_ok (fuel : Nat) : ∀ (s : State), s.pos ≤ s.input.length → 
           simp [List.getElem?_set, Ne.symm hj]
         · intro _
           refine ⟨by simp; omega, { r.tok with pos := r.tok.pos + s.pos }, by simp [List.getElem?_set, hc], by simpa using hcat, ?_⟩
-          exact ⟨⟨v1, v2⟩, by simp, by simp; omega, hfaith⟩
+          exact ⟨⟨v1, v2⟩, by simp, by simp; omega, hfaith, c1⟩
       · obtain ⟨more, s', hs', q1, q2, q3, q4, q5, q6, q7, q8, q9⟩ := ih
           { s with tv := s.tv.set s.cur { r.tok with pos := r.tok.pos + s.pos }, pos := s.pos + r.next,
                    ddx := s.ddx + r.ddx, hash := s.hash + r.hash }
@@ -63,8 +63,8 @@ theorem tokLoop_ok (fuel : Nat) : ∀ (s : State), s.pos ≤ s.input.length → 
           rw [q7 j hj]
           simp [List.getElem?_set, Ne.symm hj]
         · intro hm
-          obtain ⟨w1, t, w2, w3, ⟨w4, w5, w6, w7⟩⟩ := q8 hm
-          exact ⟨by omega, t, w2, w3, ⟨w4, by omega, w6, w7⟩⟩
+          obtain ⟨w1, t, w2, w3, ⟨w4, w5, w6, w7, w8⟩⟩ := q8 hm
+          exact ⟨by omega, t, w2, w3, ⟨w4, by omega, w6, w7, w8⟩⟩
     · simp only [hlt, ↓reduceIte, pure, Except.pure]
       refine ⟨false, s, rfl, rfl, rfl, rfl, rfl, Nat.le_refl _, hp, fun _ _ => rfl, by simp, ?_⟩
       intro _; left; omega
@@ -99,7 +99,7 @@ theorem tokenize_ok (s : State) (hp : s.pos ≤ s.input.length) (hc : s.cur < s.
         simp only [Bool.and_eq_true, beq_iff_eq] at hq; exact hq.1
       have hfl := (Bool.and_eq_true _ _ ▸ hq).2
       simp only [hq, ↓reduceIte]
-      obtain ⟨r, hr, ⟨n1, n2, ⟨v1, v2⟩, b1, f1⟩, hcat, _⟩ :=
+      obtain ⟨r, hr, ⟨n1, n2, ⟨v1, v2⟩, b1, f1, c1⟩, hcat, _⟩ :=
         parseStringCore_lex {} s.input 0 (flag2Delim s.flags) (flag2Delim_ne s.flags hfl) (by omega) hlen
       simp only [hr]
       have hc' : s.cur < (s.tv.set s.cur {}).length := by simp; exact hc
@@ -109,7 +109,7 @@ theorem tokenize_ok (s : State) (hp : s.pos ≤ s.input.length) (hc : s.cur < s.
         simp [List.getElem?_set, Ne.symm hj]
       · intro _
         refine ⟨by simp; omega, r.tok, by simp [List.getElem?_set, hc], by rw [hcat]; decide, ?_⟩
-        exact ⟨⟨v1, v2⟩, by omega, by simpa using b1, f1⟩
+        exact ⟨⟨v1, v2⟩, by omega, by simpa using b1, f1, c1⟩
     · simp only [hq, Bool.false_eq_true, ↓reduceIte]
       obtain ⟨more, s', hs', q1, q2, q3, q4, q5, q6, q7, q8, q9⟩ := tokLoop_ok (s.input.length + 1)
         { s with tv := s.tv.set s.cur {} } hp (by simp; exact hc) (by simp; omega)
@@ -128,7 +128,7 @@ open LibInj
 def RawOK (input : Bytes) (rt : RawTok) : Prop :=
   rt.tok.val = (input.drop rt.tok.pos).take rt.tok.len ∧ rt.tok.val.length = rt.tok.len ∧ rt.tok.len ≤ 31 ∧
   rt.before ≤ rt.tok.pos ∧ rt.tok.pos + rt.tok.len ≤ rt.after ∧ rt.before < rt.after ∧ rt.after ≤ input.length ∧
-  rt.tok.cat ≠ 0
+  rt.tok.cat ≠ 0 ∧ isClassU8 rt.tok.cat = true
 
 /-- consecutive scan steps are adjacent and start where the stream starts -/
 def Chained : Nat → List RawTok → Prop
@@ -155,7 +155,7 @@ theorem rawLoop_ok (fuel : Nat) : ∀ (s : State), s.pos ≤ s.input.length → 
       · exact h
       · exact absurd h hne
     | true =>
-      obtain ⟨w1, t, w2, w3, ⟨⟨v1, v2⟩, w5, w6, w7⟩⟩ := q8 rfl
+      obtain ⟨w1, t, w2, w3, ⟨⟨v1, v2⟩, w5, w6, w7, w8⟩⟩ := q8 rfl
       have hget : tvGet s' s'.cur = .ok t := by
         unfold tvGet; rw [q3, w2]
       obtain ⟨ts, sf, hr, r1, r2, r3, r4, r5⟩ := ih s' (by rw [q1]; exact q6) (by rw [q3, q4]; exact hc) (by rw [q1]; omega)
@@ -163,7 +163,7 @@ theorem rawLoop_ok (fuel : Nat) : ∀ (s : State), s.pos ≤ s.input.length → 
       refine ⟨_, sf, rfl, ?_, ⟨rfl, r2⟩, by simp; rw [q1] at r3; omega, by rw [q1] at r4; exact r4, by rw [r5, q1]⟩
       intro rt hrt
       rcases List.mem_cons.mp hrt with rfl | hrt
-      · exact ⟨w7, v1, v2, w5, w6, w1, q6, w3⟩
+      · exact ⟨w7, v1, v2, w5, w6, w1, q6, w3, by rcases w8.1 with h0 | h0; exact absurd h0 w3; exact h0⟩
       · have := r1 rt hrt; rw [q1] at this; exact this
 
 /-- **C16 on the model.** In every parsing mode the raw token stream exists (the scanner returns),
